@@ -3,7 +3,7 @@ import ast
 
 from . import scopes
 from ..core.report import DOMAIN_D
-from ..rules import partition, roles, loops, eager, degree, frame, mirror, safediv, runmin, onsegment, sides, unpack, purity, ericson, misc2, siblings, affine
+from ..rules import generic2, partition, roles, loops, eager, degree, frame, mirror, safediv, runmin, onsegment, sides, unpack, purity, ericson, misc2, siblings, affine
 from ..engines.signs import Signs, NONNEG, ZERO
 from .common import e1, e2
 
@@ -74,6 +74,8 @@ def run(idx, rep, tier):
     ericson.r_ericson(idx, rep)
     partition.r_isolated(idx, rep, [m.name for m in idx.lib_modules() if m.name.startswith('distance3d.distance')], floor=1)
     misc2.r_dupcond(idx, rep, [m.name for m in idx.lib_modules()], floor=3)
+    generic2.r_axispair(idx, rep, [m.name for m in idx.lib_modules()], floor=0)      # one site today; a vectorised test has no component pairs to mis-pair
+    generic2.r_definite(idx, rep, [m.name for m in idx.lib_modules()], floor=2)
     siblings.r_segsibling(idx, rep)
     misc2.r_parallelsign(idx, rep, [x.name for x in idx.lib_modules() if x.name.startswith("distance3d.distance")])
     degree.r_tolunit(idx, rep, [x.name for x in idx.lib_modules() if x.name.startswith("distance3d.distance")], floor=8)
